@@ -65,7 +65,13 @@ LEVEL_TEXT = (
     "timeout is counted from the record's creation, not from the first attempt (a handler behind a slow sibling, "
     "or waiting for its turn under asap, is failed with zero invocations); for timers the clause holds since "
     "9118944 (timer_first_of_series_invoked, unguarded). C11-F4 (failed timer re-spawned) is repaired by a6c10de: "
-    "timer_respawn_failure_is_last covers the timer's whole existence across re-spawns. ORACLE/TIE ONLY: several-handler activities and the parent/child "
+    "timer_respawn_failure_is_last covers the timer's whole existence across re-spawns, daemon_respawn_final_is_last a "
+    "daemon's (a task that ended on its own is never spawned again). The timer's life is modelled with the object being "
+    "changed at any time (per-iteration idleUntil): a running series is never restarted by the wait for idleness "
+    "(timer_retry_steps). initial_delay= is not part of the timeout (initial_delay_not_counted). The self-driven loops give "
+    "up only on a finished record (loop_stops_only_when_finished). FALSE clause, open finding C11-F5: a stored record whose "
+    "timestamps carry no UTC offset (older releases) makes every cycle raise: never retried (naive_record_never_retried_witness, "
+    "naive_delayed_raises_forever; stored_aware_is_step for kopf's own spelling, Z and numeric offsets). ORACLE/TIE ONLY: several-handler activities and the parent/child "
     "composition (S tie + oracle), 'recorded as failed for good' as an event for change handlers (needs a next "
     "cycle: C03). Tied to the code by a grid on the real execute_handler_once/with_outcome (complete in "
     "thorough) and closed-loop sequences on the real processing cycle (all_at_once and asap; stale/lost/kill "
@@ -76,8 +82,12 @@ TIE = ("D: bounded-exhaustive grid on the real execute_handler_once / execute_ha
        "all_at_once and under the default asap lifecycle, sub-handlers via kopf.execute incl. the children's "
        "delay), run_activity (one handler: the loop; several handlers with interleaving retries: one fold per "
        "handler, records of handlers not executed in an iteration must stay untouched), _daemon, _timer (whole "
-       "life, idle iterations included, with and without idle=), a timer through the real spawn_daemons / "
-       "match_daemons re-spawn layer")
+       "life, idle iterations included, with and without idle=, with initial_delay=, the object changed at scripted "
+       "moments incl. inside a retry series), a timer or a daemon through the real process_spawning_cause / _runner "
+       "re-spawn layer (filters toggled by when=), change handlers and pairs also through the REAL "
+       "process_changing_cause with a real registry (resuming handlers, initial=True), sub-handlers passed to "
+       "kopf.execute() or registered in the parent's body and executed implicitly, the parent failing on its own; the "
+       "model is given what the function WOULD still do: a loop that gives up early is a divergence")
 THEOREMS = [("Kopf.Props.C11", "Kopf.C11." + n) for n in [
     # one execution
     "temp_retried", "perm_final", "ignored_done", "arbitrary_by_mode", "limits_refuse", "fresh_invoked_iff",
@@ -98,6 +108,11 @@ THEOREMS = [("Kopf.Props.C11", "Kopf.C11." + n) for n in [
     "timer_failed_never_runs", "timer_failure_is_last", "timer_retry_lt", "timer_retry_steps",
     "timer_invocations_bound", "timer_series_is_loop", "timer_timeout_bound", "timer_delay_respected",
     "timer_first_of_series_invoked", "timer_respawn_failure_is_last", "children_delay_is_earliest",
+    # white-box round: the loop gives up only on a finished record; initial_delay=; a daemon across re-spawns;
+    # records with foreign spellings of their timestamps (finding C11-F5)
+    "loop_stops_only_when_finished", "loop_retries_when_due", "initial_delay_not_counted", "loop_finished_is_last",
+    "daemon_respawn_final_is_last", "stored_aware_is_step", "naive_record_never_retried_witness",
+    "naive_delayed_raises_forever", "naive_started_raises",
 ]]
 RULE = ("grid: errors mode x default mode x timeout {None,0,10s,70s} x runtime band (before / look-ahead "
         "boundary -1q / boundary / T-1q / T / after) x call duration x retries {None,0,1,4} x stored retries "
@@ -108,8 +123,12 @@ RULE = ("grid: errors mode x default mode x timeout {None,0,10s,70s} x runtime b
         "restart with downtime), activities with two handlers whose retries interleave, pairs under all_at_once or "
         "asap, for change handlers, pairs and sub-handlers also environment steps (stale body k versions back / "
         "lost patch / kill between call and patch), timers with and without idle= (idle below and above the "
-        "timeout), timers stopped by a filter mismatch and re-spawned, 30 % long flavour (day-scale times, "
-        "fractional timeouts), seven driver kinds; a case is distinct & non-trivial when its abstraction (limits "
+        "timeout), timers and daemons with initial_delay= (below and above the timeout), timers whose object is changed "
+        "1-8 times while they live, timers and daemons stopped by a filter mismatch and re-spawned through the real "
+        "process_spawning_cause, 30 % of change/pair histories through the real process_changing_cause (reasons create/"
+        "update/resume, initial=True handlers), sub-handlers explicit or implicit with a parent that fails by itself, "
+        "TemporaryError without delay= (the documented 60 s), a legacy grid (1080 points: stored records with TZ-naive / Z / "
+        "offset timestamps; always complete), 30 % long flavour (day-scale times, fractional timeouts), seven driver kinds; a case is distinct & non-trivial when its abstraction (limits "
         "class, raised kind, which branch the outcome took, gate) is new and not the plain-success path")
 TRUSTED = [
     "SimLoop virtual time + wall clock shim (harness/sim/simloop.py); times are multiples of 2**-6 s so that "
@@ -126,7 +145,13 @@ ASSUMPTIONS = [
     "kopf has no per-invocation timeout: `timeout=` is only checked before a call and in the look-ahead",
     "a timer starts a new retry series only after a succeeded one; a series that failed for good is the last "
     "thing the timer invokes, in its task (af4d77a) and across re-spawns (a6c10de: forever_stopped); the re-spawn "
-    "model assumes what process_spawning_cause does: handlers in memory.forever_stopped are not spawned",
+    "histories run the real process_spawning_cause (selection with excluded=forever_stopped) and _runner",
+    "'is retried' as progress: for the self-driven loops the oracle requires the last outcome of a loop that ended on its "
+    "own to be final; for change handlers a cycle that reports the handling as done (no delays; the real cycle purges "
+    "the progress) must not leave a top-level handler whose last outcome was a retry (histories without stale/lost/kill "
+    "steps). A sub-handler is abandoned when its parent fails for good: the parent's verdict",
+    "C11-F5: the oracle requires a stored record to be usable whatever the spelling of its timestamps (same instants); "
+    "TZ-naive ones are reported under the finding's signature, any other escaping exception is a violation",
     "the spacing guarantee is relative to the moment the outcome was merged (now of with_outcome), which is "
     "not earlier than the end of the call",
     "record continuity (every cycle starts from the record the handler's last attempt produced) is the guard of "
@@ -151,8 +176,7 @@ ASSUMPTIONS = [
     "The harness runs pairs under all_at_once and asap; randomized/shuffled are not exercised",
     "'is recorded as failed for good' as an event is proved for the self-driven in-memory loops; for change "
     "handlers it needs a next cycle, which is the environment's (C03's subject)",
-    "not modelled: `initial_delay=` of daemons/timers (a sleep before the state is created), idle-only timers "
-    "(no interval), nested sub-handlers and kopf.execute called twice in one parent call, non-zero "
+    "not modelled: idle-only timers (no interval), callable `initial_delay=`, nested sub-handlers and kopf.execute called twice in one parent call, non-zero "
     "patch_and_check latency in _daemon/_timer (the stub's patch is empty), purpose switches of records",
     "handler ids are distinct (outcomes are keyed by id)",
 ]
@@ -222,7 +246,7 @@ class K:
         from kopf._core.actions import execution, lifecycles, progression
         from kopf._core.engines import activities, daemons, indexing
         from kopf._core.intents import causes, handlers, registries, stoppers
-        from kopf._core.reactor import subhandling
+        from kopf._core.reactor import inventory, processing, subhandling
         for k, v in list(locals().items()):
             if k != "cls":
                 setattr(cls, k, v)
@@ -249,10 +273,22 @@ class ArbitraryA(Exception):
 ARBITRARY = [ValueError, KeyError, RuntimeError, ArbitraryA, ZeroDivisionError, OSError]
 
 
+DEFAULT_TEMPORARY_DELAY = 60 * 1024     # docs/errors.rst: "The default delay for temporary errors is hard-coded to 60 seconds"
+
+
+def norm_x(x: list) -> list:
+    """What the function ASKED for: `TemporaryError("…")` without `delay=` asks for the documented 60 s."""
+    if len(x) > 1 and x[1] == "default":
+        return [x[0], DEFAULT_TEMPORARY_DELAY]
+    return list(x)
+
+
 def make_exc(x: list, n: int = 0) -> BaseException | None:
     kind = x[0]
     if kind == "ok":
         return None
+    if kind == "temporary" and x[1] == "default":
+        return K.execution.TemporaryError("scripted temporary, no delay= given")
     if kind == "temporary":
         return K.execution.TemporaryError("scripted temporary", delay=sec(x[1]))
     if kind == "permanent":
@@ -321,16 +357,16 @@ def mk_handler(kind: str, hid: str, fn: Any, l: dict, **extra: Any) -> Any:
         return K.execution.Handler(**common)
     if kind == "activity":
         return K.handlers.ActivityHandler(**common, activity=K.causes.Activity.STARTUP)
-    res = dict(selector=K.references.Selector("kopfexamples"), labels=None, annotations=None, when=None,
+    res = dict(selector=K.references.Selector("kopfexamples"), labels=None, annotations=None, when=extra.get("when"),
                field=None, value=None)
     if kind == "changing":
         return K.handlers.ChangingHandler(**common, **res, old=None, new=None, field_needs_change=None,
-                                          initial=None, deleted=None, requires_finalizer=None, reason=None)
+                                          initial=extra.get("initial"), deleted=None, requires_finalizer=None, reason=None)
     if kind == "daemon":
-        return K.handlers.DaemonHandler(**common, **res, requires_finalizer=None, initial_delay=None,
+        return K.handlers.DaemonHandler(**common, **res, requires_finalizer=None, initial_delay=sec(extra.get("initial_delay")),
                                         cancellation_backoff=None, cancellation_timeout=None, cancellation_polling=None)
     if kind == "timer":
-        return K.handlers.TimerHandler(**common, **res, requires_finalizer=None, initial_delay=None,
+        return K.handlers.TimerHandler(**common, **res, requires_finalizer=None, initial_delay=sec(extra.get("initial_delay")),
                                        sharp=extra.get("sharp"), idle=sec(extra.get("idle")), interval=sec(extra.get("interval")))
     raise ValueError(kind)
 
@@ -569,8 +605,19 @@ def oracle_timer_life(l: dict, series: list[list[dict]]) -> list[tuple[str, str]
     is never invoked again; hence also at most N invocations in total with retries=N."""
     bad: list[tuple[str, str]] = []
     failed_at = None
+    prev_last = None
     for series_events in series:
         atts = [e for e in series_events if e["ev"] == "attempt"]
+        if prev_last is not None and atts and prev_last.get("rec") and not prev_last["rec"]["success"] \
+                and not prev_last["rec"]["failure"]:
+            # retries=N / the requested delay are promises about ONE series of attempts: starting over
+            # (retry=0, a new `started`, no `delayed`) in the middle of it voids all of them
+            bad.append(("series-restarted-unfinished", f"the attempt at {prev_last['time']} asked for a retry "
+                        f"(retry={prev_last['retry']}), the next execution at {atts[0]['time']} starts a new series with "
+                        f"retry={atts[0]['retry']}: the retry count, the timeout clock and the requested delay are forgotten"))
+            break
+        if atts:
+            prev_last = atts[-1]
         if failed_at is not None and any(e["invoked"] for e in atts):
             first = next(e for e in atts if e["invoked"])
             bad.append((F1_SHAPE, f"the timer was recorded as failed for good at {failed_at} and its function "
@@ -579,6 +626,19 @@ def oracle_timer_life(l: dict, series: list[list[dict]]) -> list[tuple[str, str]
         if failed_at is None and atts and atts[-1].get("rec") and atts[-1]["rec"]["failure"]:
             failed_at = atts[-1]["merged"]
     return bad
+
+
+def oracle_series_clock(kind: str, atts: list[dict]) -> list[tuple[str, str]]:
+    """"timeout=T: no attempt starts later than T after the FIRST one": in a self-driven loop (one
+    handler; activity, daemon, every series of a timer) nothing stands between the creation of the
+    series' record and its first execution, so the clock the limits are counted from (`started`)
+    must be the moment of the first attempt — not the spawn, not the start of an `initial_delay=`
+    or of the wait for the object to become idle."""
+    a = atts[0]
+    if a["retry"] == 0 and a["started"] != a["gate"]:
+        return [("series-clock-before-first-attempt", f"the first attempt of the {kind}'s series is at {a['gate']}, "
+                 f"but its timeout is counted from {a['started']} ({a['gate'] - a['started']} ticks earlier)")]
+    return []
 
 
 def signature(shape: str, site: str) -> dict:
@@ -594,6 +654,8 @@ def signature(shape: str, site: str) -> dict:
         return {"site": "execution.execute_handler_once", "shape": F3_SHAPE}
     if shape == F4_SHAPE:
         return {"site": "daemons.spawn_daemons", "shape": F4_SHAPE}
+    if shape == F5_SHAPE:
+        return {"site": "progression.HandlerState.from_storage", "shape": F5_SHAPE}
     return {"site": site, "shape": shape}
 
 
@@ -610,7 +672,7 @@ DEFAULT_BACKOFF = 60 * TPS
 def grid_points() -> Iterator[dict]:
     err_combos = [(None, "temporary"), (None, "ignored"), ("ignored", "temporary"),
                   ("temporary", "temporary"), ("permanent", "temporary")]
-    raised = ([["ok"], ["permanent"]] + [["temporary", d] for d in (None, 0, D2, -D2)]
+    raised = ([["ok"], ["permanent"]] + [["temporary", d] for d in (None, 0, D2, -D2, "default")]
               + [["children", d] for d in (None, 0, D2)] + [["arbitrary"]])
     bands = {None: [0, 5 * TPS], 0: [0, 5 * TPS],
              T10: [0, T10 - D2 - Q, T10 - D2, T10 - Q, T10, T10 + 3 * TPS],
@@ -660,6 +722,42 @@ def day_points() -> Iterator[dict]:
                "retries": 3, "stored": 1, "x": x, "backoff": None, "shape": "fresh", "default_backoff": DEFAULT_BACKOFF}
 
 
+SPELLINGS = ["naive", "naive-started", "naive-delayed", "Z", "+02:00", "-07:30"]
+F5_SHAPE = "tz-naive-stored-timestamp-escapes"
+
+
+def legacy_points() -> Iterator[dict]:
+    """Records as somebody else wrote them: the timestamps without a UTC offset (what the kopf releases
+    before the TZ-aware clock stored, `datetime.utcnow().isoformat()`, and what kopf's own tests feed),
+    with `Z`, or in another time zone — same instants, other spellings. Few, always all of them."""
+    for spelling, shape, timeout, (retries, stored), x in itertools.product(
+            SPELLINGS, ["fresh", "past", "now", "future", "success"], [None, T10, T70], [(None, 1), (4, 1), (1, 1), (1, 0)],
+            [["ok"], ["temporary", D2], ["arbitrary"]]):
+        yield {"errors": None, "default_errors": "temporary", "timeout": timeout, "runtime": 5 * TPS, "dur": 0,
+               "retries": retries, "stored": stored, "x": x, "backoff": D2, "shape": shape,
+               "default_backoff": 3 * TPS, "spelling": spelling}
+
+
+def respell(d: dict, spelling: str) -> dict:
+    """The same record (as `as_in_storage()` gives it), its timestamps spelled differently."""
+    out = dict(d)
+    for key in ("started", "stopped", "delayed"):
+        v = out.get(key)
+        if v is None:
+            continue
+        assert v.endswith("+00:00"), v
+        t = datetime.datetime.fromisoformat(v)
+        if spelling == "naive" or spelling == f"naive-{key}":
+            out[key] = v[:-6]
+        elif spelling == "Z":
+            out[key] = v[:-6] + "Z"
+        elif spelling[0] in "+-" :
+            hh, mm = int(spelling[1:3]), int(spelling[4:6])
+            off = datetime.timedelta(hours=hh, minutes=mm) * (1 if spelling[0] == "+" else -1)
+            out[key] = t.astimezone(datetime.timezone(off)).isoformat(timespec="microseconds")
+    return out
+
+
 def point_limits(p: dict) -> dict:
     return {"errors": p["errors"], "timeout": p["timeout"], "retries": p["retries"], "backoff": p["backoff"]}
 
@@ -667,9 +765,9 @@ def point_limits(p: dict) -> dict:
 def point_key(p: dict, res: dict) -> str:
     out = res.get("out") or {}
     return leanio.canon([p["errors"], p["default_errors"], p["timeout"] is None, p["timeout"] == 0, p["retries"],
-                         p["stored"], p["x"][0], p["x"][1] if len(p["x"]) > 1 else None, p["backoff"], p["shape"],
+                         p["stored"], p["x"][0], str(p["x"][1]) if len(p["x"]) > 1 else None, p["backoff"], p["shape"],
                          res.get("awake"), out.get("invoked"), out.get("final"), out.get("exc"), out.get("delay") is None,
-                         (p["runtime"] + p["dur"]) >= (p["timeout"] or 0)])
+                         (p["runtime"] + p["dur"]) >= (p["timeout"] or 0), p.get("spelling")])
 
 
 async def eval_point(p: dict, via_batch: bool, settings_cache: dict) -> dict:
@@ -710,6 +808,9 @@ async def eval_point(p: dict, via_batch: bool, settings_cache: dict) -> dict:
         kw.update(failure=True, stopped=off(-TPS))
     hs = K.progression.HandlerState(**kw)
     rec0 = rec_of_state(hs)
+    if p.get("spelling"):
+        stored = respell(hs.as_in_storage(), p["spelling"])
+        hs = K.progression.HandlerState.from_storage(K.progress.ProgressRecord(**stored), basetime=basetime).as_active()
     default_errors = k_mode(p["default_errors"])
     res: dict[str, Any] = {"rec0": rec0, "now": now}
     try:
@@ -732,6 +833,9 @@ async def eval_point(p: dict, via_batch: bool, settings_cache: dict) -> dict:
                 hs2 = hs.with_outcome(o)
     except Exception as e:
         res["awake"] = f"escaped-exception:{type(e).__name__}"
+        if p.get("spelling"):
+            res["awake"] = "raised"
+            res["escaped"] = type(e).__name__
     if res["awake"] is True:
         res["invoked"] = bool(calls)
         res["out"] = out_json(o, bool(calls), raised_exc)
@@ -745,13 +849,20 @@ async def eval_point(p: dict, via_batch: bool, settings_cache: dict) -> dict:
 
 
 def point_request(p: dict, res: dict) -> list:
+    if p.get("spelling"):
+        sp = p["spelling"]
+        return ["C11.stepStored", env_json(p["default_errors"], p["default_backoff"]), lim_json(point_limits(p)),
+                res["rec0"], sp in ("naive", "naive-started"), sp in ("naive", "naive-delayed"),
+                res["now"], p["dur"], norm_x(p["x"])]
     return ["C11.step", env_json(p["default_errors"], p["default_backoff"]), lim_json(point_limits(p)),
-            res["rec0"], res["now"], p["dur"], p["x"]]
+            res["rec0"], res["now"], p["dur"], norm_x(p["x"])]
 
 
 def point_impl(res: dict) -> dict:
     if res["awake"] is True:
         return {"awake": True, "out": res["out"], "end": res["end"], "rec": res["rec"]}
+    if res["awake"] == "raised":
+        return {"awake": "raised"}
     return {"awake": res["awake"], "done": res["done"]}
 
 
@@ -762,7 +873,14 @@ def oracle_point(ctx: Ctx, p: dict, res: dict, via: str) -> bool:
     sleeping = (not finished) and rec0["delayed"] is not None and rec0["delayed"] > res["now"]
     bad: list[tuple[str, str]] = []
     if res["awake"] is not True:
-        if res["awake"] is not False:
+        if res["awake"] == "raised":
+            # a record this operator (or a predecessor) has stored must be usable after a restart
+            naive = p["spelling"].startswith("naive")
+            bad.append((F5_SHAPE if naive and res.get("escaped") == "TypeError" else "escaped-exception",
+                        f"the cycle raised {res.get('escaped')} on a stored record whose timestamps are spelled "
+                        f"'{p['spelling']}' ({'without a UTC offset, as older kopf releases wrote them' if naive else 'same instants'}): "
+                        "the handler is neither executed nor ever retried"))
+        elif res["awake"] is not False:
             bad.append((str(res["awake"]).split(":")[0], f"no outcome was reported: {res['awake']}"))
         elif not (finished or sleeping):
             bad.append(("due-handler-skipped", "an unfinished handler whose delay has passed was not executed"))
@@ -774,7 +892,7 @@ def oracle_point(ctx: Ctx, p: dict, res: dict, via: str) -> bool:
         if res["calls"] > 1:
             bad.append(("called-twice", "one execution called the function more than once"))
         a = {"time": res["now"], "started": rec0["started"], "retry": rec0["retries"], "invoked": res["invoked"],
-             "x": p["x"], "end": res["end"], "merged": res["end"], "out": res["out"], "rec": res["rec"]}
+             "x": norm_x(p["x"]), "end": res["end"], "merged": res["end"], "out": res["out"], "rec": res["rec"]}
         bad += oracle_attempt(point_limits(p), p["default_errors"], p["default_backoff"], a)
         if res["invoked"] and res["retry_kwarg"] != rec0["retries"]:
             bad.append(("retry-kwarg", f"retry kwarg {res['retry_kwarg']} != stored retries {rec0['retries']}"))
@@ -788,7 +906,7 @@ async def run_grid(ctx: Ctx, points: list[dict], use_model: bool = True) -> None
     cache: dict = {}
     reqs, impls, inputs = [], [], []
     for p in points:
-        vias = ["batch"] if p["shape"] != "fresh" else ["direct", "batch"]
+        vias = ["batch"] if (p["shape"] != "fresh" or p.get("spelling")) else ["direct", "batch"]
         for via in vias:
             res = await eval_point(p, via == "batch", cache)
             oracle_point(ctx, p, res, via)
@@ -840,14 +958,20 @@ class Script:
         self.calls: list[dict] = []
 
     def peek(self) -> tuple[list, int]:
-        return self.items[self.i] if self.i < len(self.items) else (["ok"], 0)
+        x, dur = self.items[self.i] if self.i < len(self.items) else (["ok"], 0)
+        return norm_x(x), dur
+
+    def rest(self) -> list:
+        """What the function would still do if it were called again (then success for ever)."""
+        return [[norm_x(x), dur] for x, dur in self.items[self.i:]] + [[["ok"], 0]]
 
     def make_fn(self, before: Any = None) -> Any:
         async def fn(**kw: Any) -> None:
             x, dur = self.peek()
             n = self.i
+            raw = self.items[n][0] if n < len(self.items) else x
             self.i += 1
-            call = {"t": now_ticks(), "retry": kw["retry"], "x": x, "dur": dur, "exc": make_exc(x, n)}
+            call = {"t": now_ticks(), "retry": kw["retry"], "x": x, "dur": dur, "exc": make_exc(raw, n)}
             self.calls.append(call)
             if before is not None:
                 before(call)
@@ -878,6 +1002,8 @@ def gen_raised(rng: random.Random, children: bool, long: bool = False) -> list:
     delays = [None, 0, Q, TPS // 2, TPS, 2 * TPS, 3 * TPS, 5 * TPS, -TPS]
     if long:
         delays = [Q, TPS // 4, TPS // 2, TPS, 60 * TPS, 60 * TPS, 1800 * TPS, DAY - Q, DAY + 60 * TPS, 2 * DAY + TPS // 2, 5 * TPS]
+    if r < 0.03 and not long:
+        return ["temporary", "default"]       # TemporaryError("…") without delay=: the documented 60 s
     if r < 0.38:
         return ["temporary", rng.choice(delays)]
     if r < 0.70:
@@ -941,6 +1067,12 @@ def _gen_history(rng: random.Random, kind: str, gen_limits: Any, gen_script: Any
                          {"id": "p/s1", "limits": gen_limits(rng), "script": gen_script(rng, False)},
                          {"id": "p/s2", "limits": gen_limits(rng), "script": gen_script(rng, False)}]
         h["handlers"][0]["limits"] = lim_json(h["handlers"][0]["limits"])
+        # sub-handlers registered in the parent's body (@kopf.subhandler) and executed by kopf when the parent
+        # returns, or passed to kopf.execute() by the parent itself; the parent may fail on its own as well
+        h["implicit"] = rng.random() < 0.5
+        if rng.random() < 0.5:
+            own = [[["temporary", rng.choice([None, 0, Q, TPS, 3 * TPS, 5 * TPS])], 0], [["arbitrary"], 0], [["ok"], 0], [["ok"], 0]]
+            h["handlers"][0]["script"] = [copy.deepcopy(rng.choice(own)) for _ in range(rng.choice([1, 2, 3, 5]))]
     else:
         n = 2 if kind == "pair" else 1
         h["handlers"] = [{"id": f"h{i + 1}", "limits": gen_limits(rng), "script": gen_script(rng, not inmem)}
@@ -965,11 +1097,21 @@ def _gen_history(rng: random.Random, kind: str, gen_limits: Any, gen_script: Any
         h["interval"] = rng.choice([TPS, 4 * TPS, 10 * TPS])
         h["sharp"] = rng.choice([False, True])
         h["handlers"][0]["script"] = [s for _ in range(3) for s in gen_script(rng, False)][:12]
-        if rng.random() < 0.4:
+        if rng.random() < 0.5:
             # idle= as well: the series' record is created before the idle wait
             h["idle"] = rng.choice([Q, TPS, 2 * TPS, 5 * TPS, 10 * TPS])
             if rng.random() < 0.5:
                 h["handlers"][0]["limits"]["timeout"] = rng.choice([TPS, 2 * TPS, 5 * TPS, 8 * TPS])
+            if rng.random() < 0.7:
+                # the object is changed while the timer lives (also in the middle of a retry series):
+                # every essential change restarts the wait for idleness
+                horizon = rng.choice([5 * TPS, 20 * TPS, 60 * TPS])
+                h["touches"] = sorted({rng.randrange(0, horizon // Q) * Q for _ in range(rng.choice([1, 2, 4, 8]))})
+    if kind in ("timer", "daemon") and rng.random() < 0.35:
+        # initial_delay=: the task sleeps before it creates its state; not a part of the timeout
+        h["initial_delay"] = rng.choice([Q, TPS, 3 * TPS, 10 * TPS, 30 * TPS])
+        if rng.random() < 0.5:
+            h["handlers"][0]["limits"]["timeout"] = rng.choice([TPS, 2 * TPS, 5 * TPS, 20 * TPS])
     if kind == "respawn":
         h["interval"] = rng.choice([TPS, 4 * TPS])
         h["sharp"] = rng.choice([False, True])
@@ -977,11 +1119,20 @@ def _gen_history(rng: random.Random, kind: str, gen_limits: Any, gen_script: Any
         h["handlers"][0]["script"] = [[x, 0] for x, _ in h["handlers"][0]["script"]]   # no stop in the middle of a call
         h["tasks"] = [{"live": rng.choice([TPS, 3 * TPS, 6 * TPS, 20 * TPS, 70 * TPS]), "gap": rng.choice([Q, TPS, 5 * TPS])}
                       for _ in range(rng.choice([2, 2, 3]))]
+        h["target"] = rng.choice(["timer", "daemon"])
     if not inmem:
         h["plan"] = gen_plan(rng)
     if kind == "pair" and rng.random() < 0.4:
         h["lifecycle"] = "asap"       # kopf's default: one handler per cycle
-    if kind in ("change", "pair", "sub") and rng.random() < 0.4:
+    if kind in ("change", "pair") and rng.random() < 0.3:
+        # through the REAL process_changing_cause: a real registry (with resuming handlers, initial=True,
+        # and the causes they are selected for), purposes, the purge when the handling is done
+        h["proc"] = True
+        h["reason"] = rng.choice(["create", "update", "resume", "resume"])
+        h["cause_initial"] = h["reason"] == "resume" or rng.random() < 0.5
+        for hd in h["handlers"]:
+            hd["initial"] = rng.choice([None, None, True]) if h["cause_initial"] else None
+    elif kind in ("change", "pair", "sub") and rng.random() < 0.4:
         # the adversarial environment: stale event bodies, lost patches, kills between call and patch
         envs = []
         for _ in range(12):
@@ -1014,6 +1165,8 @@ class ChangeWorld:
         self.events: dict[str, list[dict]] = {h["id"]: [] for h in hist["handlers"]}
         self.limits = {h["id"]: lim_json(h["limits"]) for h in hist["handlers"]}
         self.sub = hist["kind"] == "sub"
+        self.implicit = bool(hist.get("implicit"))
+        self.pending_sub: dict | None = None
         self.subcycles: list[dict] = []
         self.subrecs: dict[int, list] = {}
         if self.sub:
@@ -1021,8 +1174,15 @@ class ChangeWorld:
                          for h in hist["handlers"][1:]]
             self.top = [mk_handler("changing", "p", self.parent_fn(), hist["handlers"][0]["limits"])]
         else:
-            self.top = [mk_handler("changing", h["id"], self.scripts[h["id"]].make_fn(), h["limits"])
+            self.top = [mk_handler("changing", h["id"], self.scripts[h["id"]].make_fn(), h["limits"], initial=h.get("initial"))
                         for h in hist["handlers"]]
+        self.proc = bool(hist.get("proc"))
+        self.closed = False
+        if self.proc:
+            self.registry = K.registries.OperatorRegistry()
+            for h in self.top:
+                self.registry._changing.append(h)
+            self.memory = None      # per operator incarnation; needs a running loop
         self.escaped: BaseException | None = None
         self.plan_i = 0
         self.over = False
@@ -1035,15 +1195,38 @@ class ChangeWorld:
         self.kill: int | None = None
 
     def parent_fn(self) -> Any:
+        """The parent of the sub-handlers. What it does by itself is scripted as well: an own error is
+        raised before the sub-handlers are touched (explicit mode) or after they have been registered
+        (implicit mode: what `@kopf.subhandler` does in the function's body; kopf executes them itself when
+        the function RETURNS — subhandling_context)."""
         world = self
+        script = world.scripts["p"]
 
         async def parent(**kw: Any) -> None:
+            own, _ = script.peek()
+            n = script.i
+            raw = script.items[n][0] if n < len(script.items) else own
+            script.i += 1
             call = {"t": now_ticks(), "retry": kw["retry"], "exc": None}
-            world.scripts["p"].calls.append(call)
+            script.calls.append(call)
             pre = {h.id: len(world.scripts[h.id].calls) for h in world.subs}
             body = K.bodies.Body(world.view_body)
             st0 = K.progression.State.from_storage(body=body, storage=world.storage, handlers=world.subs)
             known = {h.id: (rec_of_state(st0[h.id]) if h.id in st0 else None) for h in world.subs}
+            world.pending_sub = {"t": call["t"], "pre": pre, "known": known, "pi": len(script.calls) - 1, "call": call}
+            if world.implicit:
+                registry = K.subhandling.subregistry_var.get()
+                for h in world.subs:
+                    registry.append(h)
+            if own[0] != "ok":
+                world.pending_sub["own"] = True
+                call["exc"] = make_exc(raw, n)
+                call["x"] = own
+                call["end"] = now_ticks()
+                call["dur"] = 0
+                raise call["exc"]
+            if world.implicit:
+                return      # kopf.execute() follows in subhandling_context; cycle() completes the record
             try:
                 await K.subhandling.execute(handlers=world.subs)
             except K.execution.HandlerChildrenRetry as e:
@@ -1058,19 +1241,85 @@ class ChangeWorld:
             else:
                 call["x"] = ["ok"]
             finally:
-                call["end"] = now_ticks()
-                call["dur"] = call["end"] - call["t"]
-                world.subcycles.append({"t": call["t"], "end": call["end"], "pre": pre, "known": known,
-                                        "pi": len(world.scripts["p"].calls) - 1,
-                                        "patch": copy.deepcopy(dict(world.cause.patch))})
+                world.finish_sub()
         return parent
+
+    def finish_sub(self, outcome: Any = None) -> None:
+        """The parent's execution is over: complete its call record (implicit mode: from the outcome kopf
+        made of it) and note the sub-handlers' batch, if there was one."""
+        ps, self.pending_sub = self.pending_sub, None
+        if ps is None:
+            return
+        call = ps["call"]
+        batch_happened = True
+        if ps.get("own"):
+            # the function raised by itself: the sub-handlers must not have been executed
+            batch_happened = any(len(self.scripts[h.id].calls) > ps["pre"][h.id] for h in self.subs) or \
+                any(self.fetch(h.id, merge_patch(copy.deepcopy(self.view_body), dict(self.cause.patch))) != ps["known"][h.id]
+                    for h in self.subs)
+        elif "x" not in call:
+            exc = outcome.exception if outcome is not None else None
+            if isinstance(exc, K.execution.HandlerChildrenRetry):
+                call["exc"], call["x"] = exc, ["children", tk(exc.delay)]
+            elif exc is None:
+                call["x"] = ["ok"]
+            else:
+                call["exc"], call["x"] = exc, ["arbitrary"]
+                self.escaped = exc
+        if "end" not in call or not ps.get("own"):
+            call["end"] = now_ticks()
+            call["dur"] = call["end"] - call["t"]
+        if batch_happened:
+            self.subcycles.append({"t": ps["t"], "end": call["end"], "pre": ps["pre"], "known": ps["known"], "pi": ps["pi"],
+                                   "patch": copy.deepcopy(dict(self.cause.patch))})
 
     def fetch(self, hid: str, body: dict | None = None) -> dict | None:
         got = self.storage.fetch(key=hid, body=K.bodies.Body(self.body if body is None else body))
         return rec_of_stored(dict(got)) if got is not None else None
 
+    async def cycle_proc(self) -> float | None:
+        """One processing cycle through the REAL `processing.process_changing_cause` (handler selection
+        from a real registry incl. the resuming handlers' bookkeeping, purposes, store, purge when done).
+        Returns the smallest of the delays it reports (None: it reports none — done, or nothing to do)."""
+        self.cycles += 1
+        if self.memory is None:
+            self.memory = K.inventory.ResourceMemory()
+        self.view_body = self.body
+        body = K.bodies.Body(self.body)
+        patch = K.patches.Patch()
+        reason = K.causes.Reason(self.hist.get("reason", "create"))
+        self.cause = cause = K.causes.ChangingCause(
+            resource=self.resource, indices=self.indexers.indices, logger=K.logger, patch=patch, body=body,
+            memo=K.ephemera.Memo(), initial=bool(self.hist.get("cause_initial")), reason=reason)
+        lifecycle = K.lifecycles.asap if self.hist.get("lifecycle") == "asap" else K.lifecycles.all_at_once
+        t = now_ticks()
+        peeks = {h.id: self.scripts[h.id].peek() for h in self.top}
+        batches: list[dict] = []
+        try:
+            with spy_batches(batches, None, lambda: {hid: len(sc.calls) for hid, sc in self.scripts.items()}):
+                delays = await K.processing.process_changing_cause(
+                    lifecycle=lifecycle, registry=self.registry, settings=self.settings, memory=self.memory, cause=cause)
+        except BusyLoop:
+            raise
+        except Exception as e:
+            raise Escaped("process_changing_cause", e) from e
+        after = merge_patch(copy.deepcopy(self.body), dict(patch))
+        zero = {h.id: 0 for h in self.top}
+        for b in batches:
+            batch = [h for h in self.top if h.id in b["handlers"]]
+            mem_after = b.get("after") or {}
+            self.record_batch(batch, b["t"], b.get("merged", b["end"]), b["c0"], b["before"], peeks, b["outcomes"],
+                              {h.id: bool(mem_after.get(h.id) and (mem_after[h.id]["success"] or mem_after[h.id]["failure"]))
+                               for h in batch}, after, zero, True, b["awake"], mem_after)
+        self.body = after
+        delays = list(delays)
+        self.closed = not delays
+        return min(delays) if delays else None
+
     async def cycle(self) -> float | None:
         """One processing cycle as in process_changing_cause. Returns state.delay (None when done)."""
+        if self.proc:
+            return await self.cycle_proc()
         envstep = self.env_steps[self.cycles] if self.cycles < len(self.env_steps) else {}
         envstep = envstep or {}
         self.cycles += 1
@@ -1099,6 +1348,8 @@ class ChangeWorld:
             outcomes = await K.execution.execute_handlers_once(
                 lifecycle=lifecycle, settings=self.settings, handlers=self.top, cause=cause, state=state,
                 extra_context=K.subhandling.subhandling_context)
+            if self.sub:
+                self.finish_sub(outcomes.get("p"))
             state = state.with_outcomes(outcomes)
             merged = now_ticks()
             state.store(body=body, patch=patch, storage=self.storage)
@@ -1120,10 +1371,12 @@ class ChangeWorld:
                 self.writes[hid] += 1
             if changed:
                 self.versions.append((copy.deepcopy(self.body), dict(self.writes)))
+        self.closed = bool(state.done)
         return None if state.done else state.delay
 
     def record_batch(self, handlers: list, t: int, merged: int, pre: dict, before: dict, peeks: dict,
-                     outcomes: dict, finished: dict, after: dict, views: dict, stored: bool, awake: dict) -> None:
+                     outcomes: dict, finished: dict, after: dict, views: dict, stored: bool, awake: dict,
+                     mem_after: dict | None = None) -> None:
         clock = t
         for h in handlers:
             calls = self.scripts[h.id].calls[pre[h.id]:]
@@ -1147,7 +1400,10 @@ class ChangeWorld:
                 "invoked": bool(call), "calls": len(calls), "retry_kwarg": call["retry"] if call else None,
                 "x": x, "dur": dur, "end": end, "merged": merged, "view": views[h.id], "stored": stored,
                 "seen": before[h.id],
-                "out": out_json(o, bool(call), call["exc"] if call else None), "rec": self.fetch(h.id, after)})
+                "out": out_json(o, bool(call), call["exc"] if call else None),
+                # what the cycle stored; when the real cycle has purged the records of a finished handling,
+                # the state it was merged into in memory
+                "rec": self.fetch(h.id, after) or (mem_after or {}).get(h.id)})
             clock = end
 
     def record_subcycles(self, after: dict, views: dict, stored: bool) -> list[str]:
@@ -1257,6 +1513,8 @@ def run_change_history(hist: dict) -> dict:
             if state["restart"] is not None:
                 simloop.WALL.base += sec(state["restart"])
                 state["restart"] = None
+                if world.proc:
+                    world.memory = None
                 t = tk(simloop.WALL.base + loop.vtime)
                 for evs in world.events.values():
                     evs.append({"ev": "restarted", "time": t})
@@ -1266,11 +1524,11 @@ def run_change_history(hist: dict) -> dict:
         asyncio.set_event_loop(None)
         simloop.reset_wall()
     return {"events": world.events, "limits": world.limits, "cycles": world.cycles, "subrecs": world.subrecs,
-            "calls": {k: len(s.calls) for k, s in world.scripts.items()}}
+            "calls": {k: len(s.calls) for k, s in world.scripts.items()}, "closed": world.closed}
 
 
 @contextlib.contextmanager
-def spy_batches(log: list, on_batch: Any = None, ncalls: Any = None) -> Iterator[None]:
+def spy_batches(log: list, on_batch: Any = None, ncalls: Any = None, probe: Any = None) -> Iterator[None]:
     """Record every (state before, outcomes, state after) of the real execute_handlers_once /
     State.with_outcomes pair, for the in-memory drivers whose state is a local variable."""
     real_exec = K.execution.execute_handlers_once
@@ -1282,6 +1540,9 @@ def spy_batches(log: list, on_batch: Any = None, ncalls: Any = None) -> Iterator
             raise BusyLoop(f"1000 executions at virtual time {now_ticks()} ticks without sleeping")
         entry = {"t": now_ticks(), "before": {hid: rec_of_state(st[hid]) for hid in st},
                  "awake": {hid: bool(st[hid].awakened) for hid in st}, "c0": ncalls() if ncalls else 0}
+        entry["handlers"] = [str(h.id) for h in (kw.get("handlers") or [])]
+        if probe is not None:
+            entry.update(probe())
         outcomes = await real_exec(*args, **kw)
         entry["end"] = now_ticks()
         entry["c1"] = ncalls() if ncalls else 0
@@ -1311,7 +1572,10 @@ def spy_batches(log: list, on_batch: Any = None, ncalls: Any = None) -> Iterator
 
 
 def run_inmem_history(hist: dict) -> dict:
-    """activities.run_activity / daemons._daemon / daemons._timer with one scripted handler."""
+    """activities.run_activity / daemons._daemon / daemons._timer with one scripted handler.
+    Daemons and timers may have `initial_delay=`; a timer with `idle=` lives on an object that is
+    changed at scripted moments (`touches`: what process_spawning_cause does on an essential change,
+    `memory.idle_reset_time = loop.time()`), also in the middle of a retry series."""
     kind = hist["kind"]
     hd = hist["handlers"][0]
     settings = mk_settings(hist["default_backoff"])
@@ -1321,6 +1585,7 @@ def run_inmem_history(hist: dict) -> dict:
     resource = K.references.Resource("kopf.dev", "v1", "kopfexamples", namespaced=True)
     body = K.bodies.Body({"metadata": {"name": "obj", "namespace": "ns", "uid": "u1"}, "spec": {}})
     stopper = K.stoppers.DaemonStopper()
+    box: dict[str, Any] = {}
 
     def before(call: dict) -> None:
         # the timer never ends by itself: stop it when the script is used up
@@ -1334,12 +1599,22 @@ def run_inmem_history(hist: dict) -> dict:
         if kind == "timer" and len({b["t"] for b in batches}) >= 24:
             stopper.set(reason=K.stoppers.DaemonStoppingReason.OPERATOR_EXITING)
 
+    def probe() -> dict:
+        mem = box.get("memory")
+        return {"idle_reset": tk(mem.idle_reset_time)} if mem is not None else {}
+
+    async def toucher(memory: Any, t0: float) -> None:
+        loop = asyncio.get_running_loop()
+        for t in hist.get("touches") or []:
+            await asyncio.sleep(max(0.0, t0 + sec(t) - loop.time()))
+            memory.idle_reset_time = loop.time()
+
     async def main() -> None:
         t0 = sec(hist.get("t0", 0))
         if t0:
             await asyncio.sleep(t0)
         indexers = K.indexing.OperatorIndexers()
-        with spy_batches(batches, on_batch, lambda: len(script.calls)):
+        with spy_batches(batches, on_batch, lambda: len(script.calls), probe):
             if kind == "activity":
                 registry = K.registries.OperatorRegistry()
                 handler = mk_handler("activity", hd["id"], fn, hd["limits"])
@@ -1359,20 +1634,27 @@ def run_inmem_history(hist: dict) -> dict:
             else:
                 cause = K.causes.DaemonCause(resource=resource, indices=indexers.indices, logger=K.logger,
                                              memo=K.ephemera.Memo(), body=body, patch=K.patches.Patch(), stopper=stopper)
+                touching = None
                 try:
                     if kind == "daemon":
-                        handler = mk_handler("daemon", hd["id"], fn, hd["limits"])
+                        handler = mk_handler("daemon", hd["id"], fn, hd["limits"], initial_delay=hist.get("initial_delay"))
                         await K.daemons._daemon(settings=settings, handler=handler, cause=cause)
                     else:
                         handler = mk_handler("timer", hd["id"], fn, hd["limits"], interval=hist["interval"],
-                                             sharp=hist.get("sharp"), idle=hist.get("idle"))
-                        await K.daemons._timer(settings=settings, handler=handler, cause=cause,
-                                               memory=K.daemons.DaemonsMemory())
+                                             sharp=hist.get("sharp"), idle=hist.get("idle"),
+                                             initial_delay=hist.get("initial_delay"))
+                        box["memory"] = memory = K.daemons.DaemonsMemory()
+                        touching = asyncio.create_task(toucher(memory, t0))
+                        await K.daemons._timer(settings=settings, handler=handler, cause=cause, memory=memory)
                 except BusyLoop:
                     raise
                 except Exception as e:
                     raise Escaped("_daemon/_timer", e) from e
+                finally:
+                    if touching is not None:
+                        touching.cancel()
         result["ended"] = now_ticks()
+        result["stopped"] = stopper.is_set()
 
     simloop.run_sim(main, wall_limit=120.0)
     # split the batches into retry series (a timer starts from scratch after a finished series)
@@ -1380,10 +1662,13 @@ def run_inmem_history(hist: dict) -> dict:
     series: list[list[dict]] = []
     cur: list[dict] = []
     ci = 0
+    t0 = hist.get("t0", 0)
     for b in batches:
         ev: dict[str, Any]
+        # `idle_reset_time + idle` as this iteration's idle wait found it (no idle=: the spawn time)
+        iu = (b["idle_reset"] + hist["idle"]) if (kind == "timer" and hist.get("idle") is not None) else t0
         if hid not in b["outcomes"]:
-            ev = {"ev": "idle", "time": b["t"], "done": bool(b["before"][hid]["success"] or b["before"][hid]["failure"])}
+            ev = {"ev": "idle", "time": b["t"], "done": bool(b["before"][hid]["success"] or b["before"][hid]["failure"]), "iu": iu}
             cur.append(ev)
             continue
         calls = script.calls[b["c0"]:b["c1"]]
@@ -1394,7 +1679,7 @@ def run_inmem_history(hist: dict) -> dict:
               "invoked": bool(call), "calls": len(calls), "retry_kwarg": call["retry"] if call else None,
               "x": call["x"] if call else ["ok"], "dur": call["dur"] if call else 0, "end": b["end"],
               "merged": b.get("merged", b["end"]), "out": out_json(o, bool(call), call["exc"] if call else None),
-              "rec": b.get("after", {}).get(hid)}
+              "rec": b.get("after", {}).get(hid), "iu": iu}
         if cur and b["before"][hid]["retries"] == 0 and any(e["ev"] == "attempt" for e in cur):
             series.append(cur)
             cur = []
@@ -1402,7 +1687,7 @@ def run_inmem_history(hist: dict) -> dict:
     if cur:
         series.append(cur)
     return {"series": series, "limits": lim_json(hd["limits"]), "result": result, "calls": len(script.calls),
-            "stray_calls": len(script.calls) - ci}
+            "stray_calls": len(script.calls) - ci, "rest": script.rest()}
 
 
 def run_activity_multi(hist: dict) -> dict:
@@ -1467,16 +1752,29 @@ def run_activity_multi(hist: dict) -> dict:
 
 
 def run_respawn_history(hist: dict) -> dict:
-    """A timer through the real spawn_daemons / match_daemons layer: spawned, stopped because its filters
-    stop matching (`match_daemons(handlers=[])`), spawned again, …; one scripted function."""
+    """A timer or a daemon through the REAL `processing.process_spawning_cause` (handler selection with
+    `excluded=forever_stopped`, spawn_daemons, match_daemons, pause_daemons) and `_runner`: spawned, stopped
+    because its filters stop matching (`when=` turns false), spawned again when they match again, …;
+    one scripted function. Whether a task is started at all is the code's decision."""
     hd = hist["handlers"][0]
+    target = hist.get("target", "timer")
     settings = mk_settings(hist["default_backoff"])
     script = Script(hd["script"])
     batches: list[dict] = []
     spawns: list[int] = []
+    asked: list[int] = []
     resource = K.references.Resource("kopf.dev", "v1", "kopfexamples", namespaced=True)
     body = K.bodies.Body({"metadata": {"name": "obj", "namespace": "ns", "uid": "u1"}, "spec": {}})
-    handler = mk_handler("timer", hd["id"], script.make_fn(), hd["limits"], interval=hist["interval"], sharp=hist.get("sharp"))
+    flag = {"on": True}
+
+    def matches(**_: Any) -> bool:
+        return flag["on"]
+
+    if target == "daemon":
+        handler = mk_handler("daemon", hd["id"], script.make_fn(), hd["limits"], when=matches)
+    else:
+        handler = mk_handler("timer", hd["id"], script.make_fn(), hd["limits"], interval=hist["interval"],
+                             sharp=hist.get("sharp"), when=matches)
     info: dict[str, Any] = {}
 
     async def main() -> None:
@@ -1484,37 +1782,45 @@ def run_respawn_history(hist: dict) -> dict:
         if t0:
             await asyncio.sleep(t0)
         indexers = K.indexing.OperatorIndexers()
-        memory = K.daemons.DaemonsMemory()
-        memory.live_fresh_body = body
-        cause = K.causes.SpawningCause(resource=resource, indices=indexers.indices, logger=K.logger, memo=K.ephemera.Memo(),
-                                       body=body, patch=K.patches.Patch(), reset=False)
+        registry = K.registries.OperatorRegistry()
+        registry._spawning.append(handler)
+        memory = K.inventory.ResourceMemory()
+        running = memory.daemons_memory.running_daemons
+
+        async def cycle() -> None:
+            cause = K.causes.SpawningCause(resource=resource, indices=indexers.indices, logger=K.logger,
+                                           memo=K.ephemera.Memo(), body=body, patch=K.patches.Patch(), reset=False)
+            await K.processing.process_spawning_cause(registry=registry, settings=settings, memory=memory,
+                                                      cause=cause, operator_paused=None)
+
         with spy_batches(batches, None, lambda: len(script.calls)):
             try:
                 for task in hist["tasks"]:
-                    if hd["id"] in memory.forever_stopped:
-                        break
-                    memory.live_fresh_body = body
-                    spawns.append(now_ticks())
-                    await K.daemons.spawn_daemons(settings=settings, handlers=[handler], daemons=memory.running_daemons,
-                                                  cause=cause, memory=memory)
+                    flag["on"] = True
+                    asked.append(now_ticks())
+                    had = hd["id"] in running
+                    await cycle()
+                    if hd["id"] in running and not had:
+                        spawns.append(now_ticks())
                     await asyncio.sleep(sec(task["live"]))
-                    # the object stops matching the timer's filters …
+                    # the object stops matching the handler's filters …
+                    flag["on"] = False
                     for _ in range(50):
-                        await K.daemons.match_daemons(settings=settings, handlers=[], daemons=memory.running_daemons)
-                        if not memory.running_daemons:
+                        await cycle()
+                        if not running:
                             break
                         await asyncio.sleep(sec(Q))
-                    info["left_running"] = bool(memory.running_daemons)
+                    info["left_running"] = bool(running)
                     # … and matches again after the gap
                     await asyncio.sleep(sec(task["gap"]))
-                info["forever_stopped"] = hd["id"] in memory.forever_stopped
-                await K.daemons.stop_daemons(settings=settings, daemons=memory.running_daemons,
+                info["forever_stopped"] = hd["id"] in memory.daemons_memory.forever_stopped
+                await K.daemons.stop_daemons(settings=settings, daemons=running,
                                              reason=K.stoppers.DaemonStoppingReason.OPERATOR_EXITING)
                 await asyncio.sleep(sec(Q))
             except BusyLoop:
                 raise
             except Exception as e:
-                raise Escaped("spawn_daemons/match_daemons/_timer", e) from e
+                raise Escaped("process_spawning_cause/_runner", e) from e
 
     simloop.run_sim(main, wall_limit=120.0)
     hid = hd["id"]
@@ -1524,7 +1830,7 @@ def run_respawn_history(hist: dict) -> dict:
         k = max(i for i, t in enumerate(spawns) if t <= b["t"])
         if hid not in b["outcomes"]:
             before = b["before"][hid]
-            tasks[k].append({"ev": "idle", "time": b["t"], "done": bool(before["success"] or before["failure"])})
+            tasks[k].append({"ev": "idle", "time": b["t"], "done": bool(before["success"] or before["failure"]), "iu": spawns[k]})
             continue
         calls = script.calls[b["c0"]:b["c1"]]
         call = calls[0] if calls else None
@@ -1535,8 +1841,8 @@ def run_respawn_history(hist: dict) -> dict:
                          "retry_kwarg": call["retry"] if call else None, "x": call["x"] if call else ["ok"],
                          "dur": call["dur"] if call else 0, "end": b["end"], "merged": b.get("merged", b["end"]),
                          "seen": b["before"][hid], "out": out_json(o, bool(call), call["exc"] if call else None),
-                         "rec": b.get("after", {}).get(hid)})
-    return {"tasks": tasks, "spawns": spawns, "limits": lim_json(hd["limits"]), "info": info,
+                         "rec": b.get("after", {}).get(hid), "iu": spawns[k]})
+    return {"tasks": tasks, "spawns": spawns, "asked": asked, "limits": lim_json(hd["limits"]), "info": info,
             "stray_calls": len(script.calls) - ci}
 
 
@@ -1562,7 +1868,7 @@ def impl_events(events: list[dict]) -> list:
             out.append({"ev": "attempt", "time": e["time"], "retry": e["retry"], "out": e["out"], "end": e["end"],
                         "merged": e["merged"], "rec": e["rec"]})
         else:
-            out.append({k: v for k, v in e.items() if k not in ("pi", "view", "stored", "rec_before", "rec_after", "seen")})
+            out.append({k: v for k, v in e.items() if k not in ("pi", "view", "stored", "rec_before", "rec_after", "seen", "iu")})
     return out
 
 
@@ -1598,7 +1904,17 @@ def _history_checks(hist: dict, kind: str, db: int, env: dict) -> list[dict]:
             bad += [("called-twice", "function called twice in one execution") for e in events if e.get("calls", 0) > 1]
             bad += [("retry-kwarg", "retry kwarg differs from the stored count") for e in events
                     if e["ev"] == "attempt" and e["invoked"] and e["retry_kwarg"] != e["retry"]]
+            atts_h = [e for e in events if e["ev"] == "attempt"]
+            # (a sub-handler is abandoned when its PARENT fails for good: the parent's verdict, checked on the parent)
+            if not multi and "/" not in hid and obs.get("closed") and not hist.get("env") and atts_h and atts_h[-1]["rec"] is not None \
+                    and not (atts_h[-1]["rec"]["success"] or atts_h[-1]["rec"]["failure"]):
+                # "is retried": the handling was declared finished (nothing left to wait for; the real
+                # cycle purges the progress then) while this handler's last outcome asked for a retry
+                bad.append(("retry-abandoned", f"the processing ended as done at cycle {obs['cycles']} although the last "
+                            f"outcome of the handler (at {atts_h[-1]['end']}, retry={atts_h[-1]['retry']}) was a retry: "
+                            "it is never retried"))
             evs = [e for e in events if e["ev"] != "called-without-outcome"]
+            evs = evs[next(i for i, e in enumerate(evs) if e is first):]     # restarts before the handler's first cycle
             t0 = first["gate"] if first["ev"] == "attempt" else first["time"]
             chk = {"hid": hid, "limits": l, "events": evs,
                    "request": ["C11.runAbs", env, l, t0, abs_steps(evs)], "impl": impl_events(evs), "oracle": bad}
@@ -1622,6 +1938,7 @@ def _history_checks(hist: dict, kind: str, db: int, env: dict) -> list[dict]:
     elif kind == "respawn":
         obs = run_respawn_history(hist)
         l = obs["limits"]
+        target = hist.get("target", "timer")
         life = [e for task in obs["tasks"] for e in task]
         bad: list[tuple[str, str]] = []
         failed_at = None
@@ -1629,11 +1946,12 @@ def _history_checks(hist: dict, kind: str, db: int, env: dict) -> list[dict]:
             atts = [e for e in task if e["ev"] == "attempt"]
             inv = [e for e in atts if e["invoked"]]
             if failed_at is not None and inv:
-                bad.append((F4_SHAPE, f"the timer was recorded as failed for good at {failed_at}; after a filter mismatch and "
+                shape = F4_SHAPE if target == "timer" else "failed-daemon-respawned"
+                bad.append((shape, f"the {target} was recorded as failed for good at {failed_at}; after a filter mismatch and "
                             f"re-match it was spawned again and its function invoked at {inv[0]['time']} with "
                             f"retry={inv[0]['retry_kwarg']}"))
                 break
-            # inside one task everything the property says about a timer's life
+            # inside one task everything the property says about the handler's life
             series: list[list[dict]] = []
             for e in task:
                 if e["ev"] == "attempt" and e["retry"] == 0 and (not series or any(x["ev"] == "attempt" for x in series[-1])):
@@ -1643,20 +1961,30 @@ def _history_checks(hist: dict, kind: str, db: int, env: dict) -> list[dict]:
                 series[-1].append(e)
             for sv in series:
                 bad += oracle_sequence(l, "temporary", db, sv)
+                sa = [e for e in sv if e["ev"] == "attempt"]
+                if sa:
+                    bad += oracle_series_clock(target, sa)
             bad += oracle_timer_life(l, series)
             if failed_at is None and atts and atts[-1].get("rec") and atts[-1]["rec"]["failure"]:
                 failed_at = atts[-1]["merged"]
-        tasks_req = [[obs["spawns"][k], [[e["x"], e["dur"]] if e["ev"] == "attempt" else [["ok"], 0] for e in task]]
-                     for k, task in enumerate(obs["tasks"])]
+        if target == "timer":
+            tasks_req = [[obs["spawns"][k], [([e["x"], e["dur"]] if e["ev"] == "attempt" else [["ok"], 0]) + [e["iu"]] for e in task]]
+                         for k, task in enumerate(obs["tasks"])]
+            request = ["C11.respawn", env, l, hist["interval"], bool(hist.get("sharp")), tasks_req]
+        else:
+            tasks_req = [[obs["spawns"][k], [[e["x"], e["dur"]] for e in task if e["ev"] == "attempt"]]
+                         for k, task in enumerate(obs["tasks"])]
+            request = ["C11.daemonRespawn", env, l, tasks_req]
+            life = [e for e in life if e["ev"] == "attempt"]
         checks.append({"hid": f"{hist['handlers'][0]['id']}#respawn", "limits": l, "events": [],
-                       "request": ["C11.respawn", env, l, hist["interval"], bool(hist.get("sharp")), tasks_req],
-                       "impl": impl_events(life), "oracle": bad})
+                       "request": request, "impl": impl_events(life), "oracle": bad})
         if obs["stray_calls"]:
             checks.append({"hid": "stray", "limits": l, "events": [], "request": None, "impl": None,
                            "oracle": [("call-outside-execution", "the function was called outside a recorded execution")]})
     else:
         obs = run_inmem_history(hist)
         l = obs["limits"]
+        t0, idelay = hist.get("t0", 0), hist.get("initial_delay") or 0
         for si, events in enumerate(obs["series"]):
             if kind == "timer":
                 # a timer whose series failed for good keeps sleeping its interval and finds nothing
@@ -1673,19 +2001,33 @@ def _history_checks(hist: dict, kind: str, db: int, env: dict) -> list[dict]:
             bad += [("called-twice", "function called twice in one execution") for e in atts if e["calls"] > 1]
             if not atts:
                 continue
+            bad += oracle_series_clock(kind, atts)
+            last_series = si == len(obs["series"]) - 1
+            if last_series and not obs["result"].get("stopped") and atts[-1]["rec"] and \
+                    not (atts[-1]["rec"]["success"] or atts[-1]["rec"]["failure"]):
+                bad.append(("retry-abandoned", f"the {kind}'s loop ended on its own at {obs['result'].get('ended')} although the "
+                            f"last outcome of its handler (at {atts[-1]['end']}) was a retry: the handler is never retried"))
+            # the model gets what the function did AND what it would still do: a loop that gives up
+            # before the record is finished makes fewer attempts than the model
             script = [[e["x"], e["dur"]] for e in atts]
-            held = atts[0]["time"] != atts[0]["started"]      # a timer's idle wait sits between the two
+            whole = script + (obs["rest"] if (last_series and not obs["result"].get("stopped")) else [])
+            if kind == "timer":
+                # with idle= the wait for idleness may stand between two attempts of a series: the life check below
+                request = ["C11.loop", env, l, atts[0]["gate"], script] if hist.get("idle") is None else None
+            elif kind == "daemon":
+                request = ["C11.daemon", env, l, t0, idelay, whole]
+            else:
+                request = ["C11.loop", env, l, t0, whole]
             checks.append({"hid": f"{hist['handlers'][0]['id']}#{si}", "limits": l, "events": events,
-                           "request": None if held else ["C11.loop", env, l, atts[0]["started"], script],
+                           "request": request,
                            # the model's loop has no idle executions: an observed one is a divergence
                            "impl": impl_events(events), "oracle": bad})
         if kind == "timer":
             life = [e for series in obs["series"] for e in series]
             if life:
-                script = [[e["x"], e["dur"]] if e["ev"] == "attempt" else [["ok"], 0] for e in life]
+                script = [([e["x"], e["dur"]] if e["ev"] == "attempt" else [["ok"], 0]) + [e["iu"]] for e in life]
                 checks.append({"hid": f"{hist['handlers'][0]['id']}#life", "limits": l, "events": [],
-                               "request": ["C11.timer", env, l, hist["interval"], bool(hist.get("sharp")),
-                                           hist.get("t0", 0) + (hist.get("idle") or 0), hist.get("t0", 0), script],
+                               "request": ["C11.timer", env, l, hist["interval"], bool(hist.get("sharp")), t0, idelay, script],
                                "impl": impl_events(life), "oracle": oracle_timer_life(l, obs["series"])})
         if obs["stray_calls"]:
             checks.append({"hid": "stray", "limits": l, "events": [], "request": None, "impl": None,
@@ -1714,6 +2056,12 @@ def sub_parent_checks(hist: dict, obs: dict) -> list[dict]:
         # the sub-handlers' records as kopf.execute() had them right after its batch in this call
         recs = (obs.get("subrecs") or {}).get(pi)
         if recs is None:
+            continue
+        if e["x"][0] not in ("ok", "children"):
+            # the parent failed by itself, and yet its sub-handlers were executed in that call
+            out.append({"hid": "p", "limits": {}, "events": [], "request": None, "impl": None,
+                        "oracle": [("children-executed-under-failed-parent", f"the parent raised {e['x']} by itself at {e['time']}, "
+                                    "its sub-handlers were executed nevertheless")]})
             continue
         if all(r is not None for r in recs):
             out.append({"hid": "p#children", "limits": {}, "events": [], "oracle": [],
@@ -1820,7 +2168,7 @@ def run(ctx: Ctx) -> None:
     n = ctx.budget(6000, total)
     if n < total:
         points = ctx.rng.sample(points, n)
-    dpoints = list(day_points())        # long ages / day boundaries / fractional timeouts: always all
+    dpoints = list(day_points()) + list(legacy_points())   # long ages / day boundaries / fractional timeouts; foreign spellings: always all
     points = dpoints + points
     total += len(dpoints)
     simloop.run_sim(lambda: run_grid(ctx, points), wall_limit=600.0)
@@ -1839,7 +2187,7 @@ def search(ctx: Ctx, broken: list) -> None:
     fails on the real code (oracle only, the whole grid, ten times the histories, biased to the
     handlers/limits of the diverging inputs)."""
     K.load()
-    simloop.run_sim(lambda: run_grid(ctx, list(day_points()) + list(grid_points()), use_model=False), wall_limit=900.0)
+    simloop.run_sim(lambda: run_grid(ctx, list(day_points()) + list(legacy_points()) + list(grid_points()), use_model=False), wall_limit=900.0)
     seeds = []
     for b in broken:
         inp = (b.replay or {}).get("input") if isinstance(b.replay, dict) else None
